@@ -24,6 +24,7 @@ fn main() {
         "worker" => runner::worker(&args[2..]),
         "replay" => runner::replay_cmd(&args[2..]),
         "sweepworker" => runner::sweep_worker(&args[2..]),
+        "bigworker" => runner::worker_k::<cxcheck::big::BigKind>(&args[2..]),
         "fuzzjudge" => cxcheck::fuzz::judge_cmd(&args[2..]),
         "scaleprobe" => cxcheck::c15::scaleprobe_cmd(&args[2..]),
         _ => {
